@@ -39,6 +39,10 @@ def replay(path):
 
 
 def main():
+    # every process started by a check inherits this: glibc fills malloc'ed blocks with a non-zero pattern and freed
+    # ones with its complement, so a forgotten initialisation or a read after free misbehaves deterministically
+    # (plain builds; the sanitizer build has its own fill, see harnesses.asan_env)
+    os.environ.setdefault("MALLOC_PERTURB_", "165")
     ap = argparse.ArgumentParser()
     ap.add_argument("prop", nargs="?")
     ap.add_argument("--tier", default=os.environ.get("VERIF_TIER") or "quick")
